@@ -395,7 +395,9 @@ func genConcCase(rng *rand.Rand, lvl int, gf []string, progs [][]ccall, style in
 			tid = cur
 			left--
 		}
-		d.do(fmt.Sprintf("lg step %d", tid))
+		if out := d.do(fmt.Sprintf("lg step %d", tid)); strings.HasPrefix(out, "blocked") {
+			left = 0
+		}
 	}
 	d.m.conc.kill()
 	return hx.Case{Domain: true, Nontrivial: len(progs) >= 2, Lines: d.lines,
@@ -411,8 +413,10 @@ func dfs(lvl int, gf []string, progs [][]ccall, bound int, emit func(hx.Case), l
 			return
 		}
 		d := newCDriver(lvl, gf, progs)
+		blockedLast := false
 		for _, t := range prefix {
-			d.do(fmt.Sprintf("lg step %d", t))
+			out := d.do(fmt.Sprintf("lg step %d", t))
+			blockedLast = strings.HasPrefix(out, "blocked")
 		}
 		live := d.live()
 		d.m.conc.kill()
@@ -427,8 +431,11 @@ func dfs(lvl int, gf []string, progs [][]ccall, bound int, emit func(hx.Case), l
 		}
 		for _, t := range live {
 			cost := 0
-			if lastLive && t != last {
-				cost = 1
+			if lastLive && t != last && !blockedLast {
+				cost = 1 // switching away from a goroutine that could go on (a blocked one cannot)
+			}
+			if blockedLast && t == last {
+				continue // re-trying a blocked lock at once is a pure stutter
 			}
 			if used+cost > bound {
 				continue
